@@ -347,5 +347,406 @@ var __c11 = (function () {
   }
   function revOps() { return JSON.stringify(Object.keys(REVOPS)); }
 
-  return { rev: rev, revOps: revOps, lat: lat, latPlain: latPlain, R: R, mkNames: mkNames, ctorName: ctorName, descFacts: descFacts };
+
+  // ------------------------------------------------------------------------------------------------
+  // Lock-step: the same op sequence on T (world A) and on a forwarding proxy stack over the twin T' (world B)
+  // ------------------------------------------------------------------------------------------------
+  var TRAPS = ['getPrototypeOf', 'setPrototypeOf', 'isExtensible', 'preventExtensions', 'getOwnPropertyDescriptor', 'defineProperty', 'has', 'get', 'set', 'deleteProperty', 'ownKeys', 'apply', 'construct'];
+  var KEYED = { getOwnPropertyDescriptor: 1, defineProperty: 1, has: 1, get: 1, set: 1, deleteProperty: 1 };
+  var SYM_A = Symbol('symA'), SYM_B = Symbol('symB');   // symbols are primitives: shared by both worlds
+  var LKEYS = ['a', 'b', 'c', 'length', 'prototype', 'name', '0', '1', '2', '3', '5', 'acc', 'nca', 'ro', 'fz', 'ncw', SYM_A, SYM_B,
+    Symbol.toStringTag, Symbol.iterator, 'constructor', '4294967294', '4294967295', '-0', '1.5', '5000', 'A', 'B', 'caller', 'callee',
+    Symbol.isConcatSpreadable, 'toJSON', 'M', 'px', '-1', '01'];
+  var AP = Array.prototype;
+  var UNORDERED = { gomap: 1, goreflectmap: 1 };
+
+  function lockWorld(kind, host) {
+    var W = mkNames();
+    W.kind = kind; W.log = []; W.tlog = []; W.tlogOn = true; W.tcount = {}; W.bad = [];
+    W.unordered = !!UNORDERED[kind];
+    W.name(SYM_A, 'symA'); W.name(SYM_B, 'symB');
+    W.name(globalThis, '%global%');
+    var lg = W.name(function lg() { W.log.push('lg(this=' + R(W, this) + ')'); return 'LG'; }, 'lg');
+    var ls = W.name(function ls(v) { W.log.push('ls(this=' + R(W, this) + ',v=' + R(W, v) + ')'); }, 'ls');
+    var fv = W.name(function fv() { return 'FV'; }, 'fv');
+    var ov1 = W.name({ tag: 'ov1' }, 'ov1');
+    W.vals = [1, 2, 'x', undefined, null, -0, NaN, true, ov1, fv, 4, '7', 0, 1.5, -1, 4294967296];
+    W.fns = { lg: lg, ls: ls, fv: fv, und: undefined };
+    var protoX = W.name({ px: 1 }, 'protoX');
+    Object.defineProperty(protoX, 'acc', { get: lg, set: ls, enumerable: true, configurable: true });
+    Object.defineProperty(protoX, 'ro', { value: 'RO', writable: false, enumerable: true, configurable: true });
+    var protoY = W.name(Object.create(protoX), 'protoY'); protoY.py = 2;
+    W.protoX = protoX; W.protoY = protoY;
+    W.recvA = W.name({ ra: 1 }, 'recvA');
+    W.ctorF = W.name(function ctorF() { }, 'ctorF'); W.name(W.ctorF.prototype, 'ctorF.prototype');
+    W.NT = W.name(function NT() { }, 'NT'); W.name(W.NT.prototype, 'NT.prototype');
+    var T;
+    switch (kind) {
+      case 'plain': T = { a: 1, b: 'x' }; break;
+      case 'nullproto': T = Object.create(null); T.a = 1; T.b = 'x'; break;
+      case 'inherits': T = Object.create(protoY); T.a = 1; break;
+      case 'function': T = function T(a, b) { W.log.push('T(this=' + R(W, this) + ',nt=' + R(W, new.target) + ',a=' + R(W, a) + ',b=' + R(W, b) + ')'); if (new.target) { this.made = a; } else return a; }; break;
+      case 'strictfn': T = function T(a, b) { 'use strict'; W.log.push('T(this=' + R(W, this) + ',nt=' + R(W, new.target) + ',a=' + R(W, a) + ')'); if (new.target) { this.made = a; } else return b; }; break;
+      case 'arrow': T = (a) => { W.log.push('arrow(a=' + R(W, a) + ')'); return a; }; break;
+      case 'class': T = class T { constructor(a) { W.log.push('ctor(nt=' + R(W, new.target) + ',a=' + R(W, a) + ')'); this.made = a; } m() { return 'm'; } static sm() { return 'sm'; } }; break;
+      case 'dense': T = [1, 2, 3]; break;
+      case 'sparse': T = [1, 2, 3]; T[5000] = 4; break;
+      case 'args': T = (function (p, q) { return arguments; })(1, 2); break;
+      case 'strictargs': T = (function (p, q) { 'use strict'; return arguments; })(1, 2); break;
+      case 'string': T = new String('ab'); break;
+      case 'typed': T = new Uint8Array([1, 2, 3, 4]); break;
+      case 'frozen': T = Object.freeze({ a: 1, b: 'x' }); break;
+      case 'sealed': T = Object.seal({ a: 1, b: 'x' }); break;
+      case 'nonext': T = Object.preventExtensions({ a: 1, b: 'x' }); break;
+      case 'frozenarray': T = Object.freeze([1, 2, 3]); break;
+      case 'accessors':
+        T = { a: 1 };
+        Object.defineProperty(T, 'acc', { get: lg, set: ls, enumerable: true, configurable: true });
+        Object.defineProperty(T, 'nca', { get: lg, set: undefined, enumerable: false, configurable: false });
+        Object.defineProperty(T, 'ro', { value: 'ro', writable: false, enumerable: true, configurable: true });
+        Object.defineProperty(T, 'fz', { value: 'fz', writable: false, enumerable: true, configurable: false });
+        Object.defineProperty(T, 'ncw', { value: 'ncw', writable: true, enumerable: false, configurable: false });
+        Object.defineProperty(T, SYM_A, { value: 'sa', writable: true, enumerable: true, configurable: false });
+        Object.defineProperty(T, '1', { get: undefined, set: undefined, enumerable: true, configurable: false });
+        break;
+      default: T = host(kind);
+    }
+    if (typeof T === 'function' && hasOwnP.call(T, 'prototype')) W.name(T.prototype, 'T.prototype');
+    W.T = W.name(T, 'T');
+    W.S = T;
+    return W;
+  }
+
+  // structural dump of an ordinary (non-proxy) object
+  function dump(W, o) {
+    var ks = Reflect.ownKeys(o), parts = [];
+    for (var i = 0; i < ks.length; i++) {
+      var d = Reflect.getOwnPropertyDescriptor(o, ks[i]), t;
+      if (d === undefined) t = 'gone';
+      else if ('value' in d) t = 'D(' + R(W, d.value) + (d.writable ? ',W' : ',w') + (d.enumerable ? 'E' : 'e') + (d.configurable ? 'C' : 'c') + ')';
+      else t = 'A(' + R(W, d.get) + ',' + R(W, d.set) + (d.enumerable ? ',E' : ',e') + (d.configurable ? 'C' : 'c') + ')';
+      parts.push(R(W, ks[i]) + '=' + t);
+    }
+    if (W.unordered) parts.sort();
+    return 'ext=' + Reflect.isExtensible(o) + ';proto=' + R(W, Reflect.getPrototypeOf(o)) + ';[' + parts.join(';') + ']';
+  }
+  function fullDump(W) {
+    return 'T{' + dump(W, W.T) + '} child{' + dump(W, W.child) + '} recvA{' + dump(W, W.recvA) + '} protoX{' + dump(W, W.protoX) + '} protoY{' + dump(W, W.protoY) + '}';
+  }
+  // facts about the raw target the trap-sequence model needs
+  function keyFacts(W, key) {
+    var T = W.T, f = { ext: Reflect.isExtensible(T), proto: R(W, Reflect.getPrototypeOf(T)), own: false, chain: 'none', desc: null };
+    if (key === undefined) return f;
+    var od = Reflect.getOwnPropertyDescriptor(T, key);
+    f.own = od !== undefined;
+    f.desc = descFacts(W, od);
+    for (var o = T, n = 0; o !== null && n < 20; o = Reflect.getPrototypeOf(o), n++) {
+      var d = Reflect.getOwnPropertyDescriptor(o, key);
+      if (d !== undefined) { f.chain = 'value' in d ? (d.writable ? 'dataW' : 'dataRO') : (d.set !== undefined ? 'accSet' : 'accNoSet'); break; }
+    }
+    return f;
+  }
+  // model-free essential-invariant monitor on the *direct* target (world A): a target that breaks these cannot be
+  // mirrored by any spec-conforming proxy, so such a case is outside C11's domain (it is C04's business)
+  function snap(W, o) {
+    var ks = Reflect.ownKeys(o), m = new Map();
+    for (var i = 0; i < ks.length; i++) m.set(ks[i], Reflect.getOwnPropertyDescriptor(o, ks[i]));
+    return { ext: Reflect.isExtensible(o), proto: Reflect.getPrototypeOf(o), props: m };
+  }
+  function sane(W, pre, post) {
+    var bad = [];
+    post.props.forEach(function (d, k) {
+      if (d === undefined) bad.push('key ' + R(W, k) + ' is listed by [[OwnPropertyKeys]] but has no descriptor');
+      else if (!('value' in d) && !('get' in d)) bad.push('descriptor of ' + R(W, k) + ' has neither value nor get/set');
+    });
+    if (!pre.ext) {
+      if (post.ext) bad.push('non-extensible object became extensible');
+      if (post.proto !== pre.proto) bad.push('prototype of a non-extensible object changed');
+      post.props.forEach(function (d, k) { if (!pre.props.has(k)) bad.push('non-extensible object gained key ' + R(W, k)); });
+    }
+    pre.props.forEach(function (d, k) {
+      if (d === undefined || d.configurable) return;
+      var e = post.props.get(k);
+      if (e === undefined) { bad.push('non-configurable ' + R(W, k) + ' disappeared'); return; }
+      if (e.configurable) bad.push('non-configurable ' + R(W, k) + ' became configurable');
+      if (e.enumerable !== d.enumerable) bad.push('non-configurable ' + R(W, k) + ' changed enumerability');
+      if (('value' in d) !== ('value' in e)) bad.push('non-configurable ' + R(W, k) + ' changed kind');
+      if ('value' in d && 'value' in e && !d.writable) {
+        if (e.writable) bad.push('non-configurable non-writable ' + R(W, k) + ' became writable');
+        if (!Object.is(d.value, e.value)) bad.push('non-configurable non-writable ' + R(W, k) + ' changed value');
+      }
+      if ('get' in d && 'get' in e && (d.get !== e.get || d.set !== e.set)) bad.push('non-configurable accessor ' + R(W, k) + ' changed get/set');
+    });
+    return bad.join('; ');
+  }
+  // post-mortem audit of a raw target, run only after a divergence was seen: does the target agree with itself?
+  // (descriptor vs Get vs HasProperty vs key listing, integer vs string spelling of a key).  A target that does not
+  // cannot be mirrored by a conforming proxy; such a divergence is attributed to the target (C04/C07/C13), not to Proxy.
+  function sameDesc(a, b) {
+    if (a === undefined || b === undefined) return a === b;
+    return ('value' in a) === ('value' in b) && Object.is(a.value, b.value) && a.writable === b.writable && a.get === b.get && a.set === b.set &&
+      a.enumerable === b.enumerable && a.configurable === b.configurable;
+  }
+  function audit(W, T) {
+    var bad = [];
+    try {
+      var ks = Reflect.ownKeys(T), en = [];
+      for (var i = 0; i < ks.length && i < 200; i++) {
+        var k = ks[i], d = Reflect.getOwnPropertyDescriptor(T, k);
+        if (d === undefined) { bad.push('key ' + R(W, k) + ' listed without descriptor'); continue; }
+        if (!('value' in d) && !('get' in d)) { bad.push('descriptor of ' + R(W, k) + ' has neither value nor get/set'); continue; }
+        if (!Reflect.has(T, k)) bad.push('HasProperty false for own key ' + R(W, k));
+        if ('value' in d) {
+          var gv = Reflect.get(T, k);
+          if (!Object.is(gv, d.value)) bad.push('Get(' + R(W, k) + ') = ' + R(W, gv) + ' but the data descriptor says ' + R(W, d.value));
+        } else if (d.get === undefined && Reflect.get(T, k) !== undefined) bad.push('Get(' + R(W, k) + ') is not undefined although the accessor has no getter');
+        if (typeof k === 'string') {
+          if (d.enumerable) en.push(k);
+          var nk = Number(k);
+          if (String(nk) === k && nk >= 0 && nk === Math.floor(nk) && nk < 4294967295 && !sameDesc(d, Reflect.getOwnPropertyDescriptor(T, nk))) bad.push('descriptor of ' + R(W, k) + ' differs between the integer and the string spelling of the key');
+        }
+      }
+      if (!W.unordered && ks.length <= 200) {
+        var ok = Object.keys(T);
+        if (ok.join('\u0000') !== en.join('\u0000')) bad.push('Object.keys [' + ok.join(',') + '] disagrees with the enumerable string keys of the descriptors [' + en.join(',') + ']');
+      }
+    } catch (e) { bad.push('audit threw ' + ctorName(e)); }
+    return bad.join('; ');
+  }
+  function lockDesc(W, d) {
+    var o = {};
+    if (d.v !== undefined) o.value = W.vals[d.v];
+    if (d.w !== undefined) o.writable = d.w;
+    if (d.g !== undefined) o.get = W.fns[d.g];
+    if (d.s !== undefined) o.set = W.fns[d.s];
+    if (d.e !== undefined) o.enumerable = d.e;
+    if (d.c !== undefined) o.configurable = d.c;
+    return o;
+  }
+  function recv(W, r) {
+    switch (r) {
+      case 'self': return W.S; case 'child': return W.child; case 'recvA': return W.recvA; case 'protoX': return W.protoX;
+      case 'prim': return 1; case 'null': return null;
+    }
+    return W.S;
+  }
+  function protoCand(W, p) {
+    switch (p) {
+      case 'protoX': return W.protoX; case 'protoY': return W.protoY; case 'null': return null; case 'recvA': return W.recvA;
+      case 'arrayProto': return Array.prototype; case 'fnProto': return Function.prototype; case 'objProto': return Object.prototype; case 'prim': return 1;
+    }
+    return null;
+  }
+  function instC(W, c) { switch (c) { case 'Array': return Array; case 'Function': return Function; case 'ctorF': return W.ctorF; } return Object; }
+  function cb(W, f) {
+    switch (f) {
+      case 1: return function (x) { return typeof x === 'number' ? x * 2 : x; };
+      case 2: return function (x, i) { return i % 2 === 0; };
+      case 3: return function (x, i) { W.log.push('cb(' + R(W, x) + ',' + i + ')'); return x; };
+      case 4: return function (x, i, arr) { if (i === 0) delete arr[1]; return x; };
+      case 5: return function (x, i, arr) { if (i === 0) arr[2] = 'w'; return !!x; };
+    }
+    return function (x) { return x; };
+  }
+  function cmp(f) {
+    if (f % 2 === 0) return undefined;
+    return function (a, b) { var sa = String(a), sb = String(b); return sa < sb ? -1 : sa > sb ? 1 : 0; };
+  }
+  function getProtoDunder(S) { return S.__proto__; }
+  function setProtoDunder(S, p) { return S.__proto__ = p; }
+  function forInKeys(S) { var l = []; for (var k in S) l.push(k); return l; }
+  function v(W, op, i) { return W.vals[(op.a && op.a[i] !== undefined) ? op.a[i] : 0]; }
+  function n(op, i) { return (op.n && op.n[i] !== undefined) ? op.n[i] : 0; }
+
+  var LOPS = {
+    'define/O': function (W, S, k, op) { return Object.defineProperty(S, k, lockDesc(W, op.d)); },
+    'define/R': function (W, S, k, op) { return Reflect.defineProperty(S, k, lockDesc(W, op.d)); },
+    'define/Os': function (W, S, k, op) { var ps = {}; Object.defineProperty(ps, k, { value: lockDesc(W, op.d), enumerable: true }); return Object.defineProperties(S, ps); },
+    'get/S': function (W, S, k) { return S[k]; },
+    'get/R': function (W, S, k) { return Reflect.get(S, k); },
+    'get/Rr': function (W, S, k, op) { return Reflect.get(S, k, recv(W, op.r)); },
+    'get/child': function (W, S, k) { return W.child[k]; },
+    'set/sloppy': function (W, S, k, op) { return setSloppy(S, k, v(W, op, 0)); },
+    'set/strict': function (W, S, k, op) { return setStrict(S, k, v(W, op, 0)); },
+    'set/R': function (W, S, k, op) { return Reflect.set(S, k, v(W, op, 0)); },
+    'set/Rr': function (W, S, k, op) { return Reflect.set(S, k, v(W, op, 0), recv(W, op.r)); },
+    'set/child': function (W, S, k, op) { return setSloppy(W.child, k, v(W, op, 0)); },
+    'delete/sloppy': function (W, S, k) { return delSloppy(S, k); },
+    'delete/strict': function (W, S, k) { return delStrict(S, k); },
+    'delete/R': function (W, S, k) { return Reflect.deleteProperty(S, k); },
+    'has/in': function (W, S, k) { return k in S; },
+    'has/R': function (W, S, k) { return Reflect.has(S, k); },
+    'has/child': function (W, S, k) { return k in W.child; },
+    'hasOwn/p': function (W, S, k) { return hasOwnP.call(S, k); },
+    'hasOwn/O': function (W, S, k) { return Object.hasOwn(S, k); },
+    'hasOwn/pie': function (W, S, k) { return propIsEnum.call(S, k); },
+    'gopd/O': function (W, S, k) { return Object.getOwnPropertyDescriptor(S, k); },
+    'gopd/R': function (W, S, k) { return Reflect.getOwnPropertyDescriptor(S, k); },
+    'gopds/O': function (W, S) { return Object.getOwnPropertyDescriptors(S); },
+    'keys/R': function (W, S) { return Reflect.ownKeys(S); },
+    'keys/names': function (W, S) { return Object.getOwnPropertyNames(S); },
+    'keys/symbols': function (W, S) { return Object.getOwnPropertySymbols(S); },
+    'keys/O': function (W, S) { return Object.keys(S); },
+    'keys/values': function (W, S) { return Object.values(S); },
+    'keys/entries': function (W, S) { return Object.entries(S); },
+    'keys/forin': function (W, S) { return forInKeys(S); },
+    'keys/spread': function (W, S) { return { ...S }; },
+    'keys/assignFrom': function (W, S) { return Object.assign({}, S); },
+    'keys/assignTo': function (W, S, k, op) { var src = {}; src[k] = v(W, op, 0); src.c = v(W, op, 1); return Object.assign(S, src); },
+    'keys/json': function (W, S) { return JSON.stringify(S); },
+    'pe/O': function (W, S) { return Object.preventExtensions(S); },
+    'pe/R': function (W, S) { return Reflect.preventExtensions(S); },
+    'seal/O': function (W, S) { return Object.seal(S); },
+    'freeze/O': function (W, S) { return Object.freeze(S); },
+    'isExt/O': function (W, S) { return Object.isExtensible(S); },
+    'isExt/R': function (W, S) { return Reflect.isExtensible(S); },
+    'isSealed/O': function (W, S) { return Object.isSealed(S); },
+    'isFrozen/O': function (W, S) { return Object.isFrozen(S); },
+    'getProto/O': function (W, S) { return Object.getPrototypeOf(S); },
+    'getProto/R': function (W, S) { return Reflect.getPrototypeOf(S); },
+    'getProto/dunder': function (W, S) { return getProtoDunder(S); },
+    'getProto/isProtoOf': function (W, S, k, op) { var c = protoCand(W, op.p); return c === null || typeof c !== 'object' ? 'n/a' : Object.prototype.isPrototypeOf.call(c, S); },
+    'setProto/O': function (W, S, k, op) { return Object.setPrototypeOf(S, protoCand(W, op.p)); },
+    'setProto/R': function (W, S, k, op) { return Reflect.setPrototypeOf(S, protoCand(W, op.p)); },
+    'setProto/dunder': function (W, S, k, op) { return setProtoDunder(S, protoCand(W, op.p)); },
+    'call/S': function (W, S, k, op) { return S(v(W, op, 0), v(W, op, 1)); },
+    'call/call': function (W, S, k, op) { return S.call(W.recvA, v(W, op, 0)); },
+    'call/R': function (W, S, k, op) { return Reflect.apply(S, W.recvA, [v(W, op, 0), v(W, op, 1)]); },
+    'new/S': function (W, S, k, op) { return new S(v(W, op, 0)); },
+    'new/R': function (W, S, k, op) { return Reflect.construct(S, [v(W, op, 0)]); },
+    'new/Rnt': function (W, S, k, op) { return Reflect.construct(S, [v(W, op, 0)], W.NT); },
+    'new/asNT': function (W, S, k, op) { return Reflect.construct(W.ctorF, [], S); },
+    'isArray': function (W, S) { return Array.isArray(S); },
+    'typeof': function (W, S) { return typeof S; },
+    'instanceof/lhs': function (W, S, k, op) { return S instanceof instC(W, op.c); },
+    'instanceof/rhs': function (W, S) { return W.recvA instanceof S; },
+    'am/push': function (W, S, k, op) { return AP.push.call(S, v(W, op, 0), v(W, op, 1)); },
+    'am/pop': function (W, S) { return AP.pop.call(S); },
+    'am/shift': function (W, S) { return AP.shift.call(S); },
+    'am/unshift': function (W, S, k, op) { return AP.unshift.call(S, v(W, op, 0)); },
+    'am/splice': function (W, S, k, op) { return AP.splice.call(S, n(op, 0), n(op, 1), v(W, op, 0)); },
+    'am/slice': function (W, S, k, op) { return AP.slice.call(S, n(op, 0), n(op, 1)); },
+    'am/concat': function (W, S, k, op) { return AP.concat.call(S, [v(W, op, 0)], v(W, op, 1)); },
+    'am/indexOf': function (W, S, k, op) { return AP.indexOf.call(S, v(W, op, 0)); },
+    'am/lastIndexOf': function (W, S, k, op) { return AP.lastIndexOf.call(S, v(W, op, 0)); },
+    'am/includes': function (W, S, k, op) { return AP.includes.call(S, v(W, op, 0)); },
+    'am/join': function (W, S) { return AP.join.call(S, '-'); },
+    'am/reverse': function (W, S) { return AP.reverse.call(S); },
+    'am/sort': function (W, S, k, op) { return AP.sort.call(S, cmp(op.f | 0)); },
+    'am/fill': function (W, S, k, op) { return AP.fill.call(S, v(W, op, 0), n(op, 0), n(op, 1) + 3); },
+    'am/map': function (W, S, k, op) { return AP.map.call(S, cb(W, op.f)); },
+    'am/filter': function (W, S, k, op) { return AP.filter.call(S, cb(W, op.f)); },
+    'am/forEach': function (W, S, k, op) { return AP.forEach.call(S, cb(W, op.f)); },
+    'am/reduce': function (W, S) { return AP.reduce.call(S, function (acc, x) { return acc + '|' + String(x); }, ''); },
+    'am/find': function (W, S, k, op) { return AP.find.call(S, cb(W, op.f)); },
+    'am/findIndex': function (W, S, k, op) { return AP.findIndex.call(S, cb(W, op.f)); },
+    'am/every': function (W, S, k, op) { return AP.every.call(S, cb(W, op.f)); },
+    'am/some': function (W, S, k, op) { return AP.some.call(S, cb(W, op.f)); },
+    'am/flat': function (W, S) { return AP.flat.call(S); },
+    'am/copyWithin': function (W, S, k, op) { return AP.copyWithin.call(S, n(op, 0), n(op, 1)); },
+    'am/at': function (W, S, k, op) { return AP.at.call(S, n(op, 0)); },
+    'am/keysIter': function (W, S) { return [...AP.keys.call(S)]; },
+    'am/entriesIter': function (W, S) { return [...AP.entries.call(S)]; },
+    'am/spreadArr': function (W, S) { return [...S]; },
+    'am/from': function (W, S) { return Array.from(S); }
+  };
+  // ops whose trap log is recorded exactly (single internal method, or ownKeys prefix); everything else only counts traps
+  function tlogWanted(opname) {
+    var p = opname.split('/')[0];
+    return p === 'define' || p === 'get' || p === 'set' || p === 'delete' || p === 'has' || p === 'hasOwn' || p === 'gopd' || p === 'pe' || p === 'isExt' ||
+      p === 'getProto' || p === 'setProto' || opname === 'keys/R' || opname === 'keys/names' || opname === 'keys/symbols';
+  }
+  // logical cost bound: operations that walk 0..length-1 are skipped while the target's length is huge
+  function lockGuard(W, op) {
+    var name = op.op;
+    if (name.slice(0, 3) !== 'am/' && name !== 'keys/json') return '';
+    var d = Reflect.getOwnPropertyDescriptor(W.T, 'length');
+    if (d !== undefined && 'value' in d && typeof d.value === 'number' && d.value > 6000) return 'length>6000';
+    // goja's generic Array.prototype methods test presence by Get (no HasProperty): through a proxy every hole looks
+    // present and the has trap is never consulted (reported in the inbox; known finding).  Until that is repaired the
+    // length-walking methods are only issued while 0..length-1 has no hole.
+    if (name.slice(0, 3) === 'am/' && d !== undefined && 'value' in d && (d.value === null || typeof d.value !== 'object' && typeof d.value !== 'function' && typeof d.value !== 'symbol')) {
+      var len = Math.min(Number(d.value), 6001);   // ToLength of a primitive (NaN => no iteration)
+      for (var i = 0; i < len; i++) if (!(i in W.T)) return 'hole';
+    }
+    return '';
+  }
+  function mkJSLayer(W, target, i) {
+    var H = {};
+    TRAPS.forEach(function (t) {
+      var keyed = KEYED[t] === 1;
+      H[t] = function () {
+        W.tcount[t] = (W.tcount[t] | 0) + 1;
+        if (arguments[0] !== target) W.bad.push('layer ' + i + ' trap ' + t + ': first argument is not the layer target');
+        if (this !== H) W.bad.push('layer ' + i + ' trap ' + t + ': this is not the handler');
+        if (W.tlogOn) W.tlog.push(i + ':' + t + (keyed ? ':' + R(W, arguments[1]) : ''));
+        return Reflect[t].apply(undefined, arguments);
+      };
+    });
+    return new Proxy(target, H);
+  }
+  function lockStep(W, op, isB) {
+    W.log.length = 0; W.tlog.length = 0;
+    W.tlogOn = tlogWanted(op.op);
+    var key = op.k === undefined ? undefined : LKEYS[op.k];
+    var rec = {};
+    rec.pre = keyFacts(W, key);
+    var s0 = isB ? null : snap(W, W.T);
+    var out, res, threw = false;
+    try { res = LOPS[op.op](W, W.S, key, op); } catch (e) { threw = true; out = 'throw:' + ctorName(e); }
+    if (isB) rec.tlog = W.tlog.join(',');
+    W.tlogOn = false;
+    if (!threw) out = 'ok:' + (W.unordered ? RU(W, res) : R(W, res));
+    rec.out = out;
+    rec.log = W.log.join('|');
+    rec.dump = fullDump(W);
+    rec.post = keyFacts(W, key);
+    if (isB) rec.bad = W.bad.join('; ');
+    else rec.insane = sane(W, s0, snap(W, W.T));
+    return rec;
+  }
+  // rendering for targets whose key order is documented as unordered (Go maps): arrays and object parts sorted
+  function RU(W, x) {
+    if (Array.isArray(x) && !W.m.has(x)) { var a = []; for (var i = 0; i < x.length && i < 64; i++) a.push(R(W, x[i])); a.sort(); return '[' + a.join(',') + ']~'; }
+    if (x !== null && typeof x === 'object' && !W.m.has(x)) {
+      var ks = Reflect.ownKeys(x), parts = [];
+      for (var j = 0; j < ks.length && j < 64; j++) parts.push(R(W, ks[j]) + ':' + R(W, x[ks[j]]));
+      parts.sort(); return '{' + parts.join(',') + '}~';
+    }
+    return R(W, x);
+  }
+  // C: {kind, handlers:[...'js'|'go' per layer, outermost first], ops:[...]}; host(kind) -> Go wrapper;
+  // goLayer(target, layerIndex, logFn, badFn) -> Go-handler proxy
+  function lockRun(caseJSON, host, goLayer) {
+    var C = JSON.parse(caseJSON);
+    var A = lockWorld(C.kind, host), B = lockWorld(C.kind, host);
+    var P = B.T;
+    for (var i = C.handlers.length - 1; i >= 0; i--) {
+      if (C.handlers[i] === 'go') {
+        P = (function (i) {
+          return goLayer(P, i, function (trap, key, hasKey) {
+            B.tcount[trap] = (B.tcount[trap] | 0) + 1;
+            if (B.tlogOn) B.tlog.push(i + ':' + trap + (hasKey ? ':' + R(B, key) : ''));
+          }, function (msg) { B.bad.push(msg); });
+        })(i);
+      } else P = mkJSLayer(B, P, i);
+      B.name(P, 'T');
+    }
+    B.S = P;
+    A.child = A.name(Object.create(A.S), 'child'); A.child.own = 1;
+    B.child = B.name(Object.create(B.S), 'child'); B.child.own = 1;
+    var recs = [{ i: -1, a: { out: '', log: '', dump: fullDump(A) }, b: { out: '', log: '', dump: fullDump(B), tlog: '', bad: '' } }];
+    for (var j = 0; j < C.ops.length; j++) {
+      var op = C.ops[j];
+      var g = lockGuard(A, op) || lockGuard(B, op);
+      if (g) { recs.push({ i: j, skip: g }); continue; }
+      var ra = lockStep(A, op, false), rb = lockStep(B, op, true);
+      recs.push({ i: j, a: ra, b: rb });
+      if (ra.out !== rb.out || ra.log !== rb.log || ra.dump !== rb.dump || rb.bad || ra.insane) break;
+    }
+    B.tlogOn = false;
+    return JSON.stringify({ recs: recs, tcount: B.tcount, auditA: audit(A, A.T), auditB: audit(B, B.T) });
+  }
+
+  return { lockRun: lockRun, lockKeys: function () { return LKEYS.length; }, rev: rev, revOps: revOps, lat: lat, latPlain: latPlain, R: R, mkNames: mkNames, ctorName: ctorName, descFacts: descFacts };
 })();
